@@ -392,6 +392,73 @@ def r4(repo, res, stored):
            found=f"arity {arity}", key="tuple-arity")
 
 
+def r6(repo, res):
+    """Inferred amino-acid effect of an uncatalogued substitution goes through the same maps and orientation."""
+    gf = repo.func("gene::Gene.get_functional")
+    ro = repo.func("gene::Gene._reverse_op")
+    sa = repo.func("common::seq_to_amino")
+    res.analysed(gf, ro, sa)
+    consts = module_consts(repo.mod("common"))
+    prot = consts.get("PROTEINS")
+    if not prot:
+        res.err("C08.R6", "codon table PROTEINS not found in common.py")
+        return
+
+    def amino(seq):
+        k, v = Evaluator({"seq": seq}, consts=consts).run(fn_body(sa))
+        if k != "return":
+            raise Raised(str(v))
+        return v
+
+    exon = (4, 19)  # RefSeq 0-based [4, 19): 5 codons
+    ref_aa = "".join(prot[SEQ[i:i + 3]] for i in range(exon[0], exon[1] - (exon[1] - exon[0]) % 3, 3))
+    n = 0
+    for strand in "+-":
+        s_ = 1 if strand == "+" else -1
+        try:
+            me, rev_comp = fold_init_basic(repo, strand, "M40")
+        except (Unfoldable, Raised) as e:
+            res.err("C08.R6", f"Gene._init_basic outside folding language: {e}")
+            return
+        me.mutations, me.exons, me.aminoacid = {}, [exon], ref_aa
+
+        def reverse_op(op, rev_comp=rev_comp):
+            k, v = Evaluator({"self": me, "op": op}, funcs={"rev_comp": rev_comp}).run(fn_body(ro))
+            return v
+
+        me._reverse_op = reverse_op
+        bad = None
+        for ridx in (5, 6, 7, 11, 17, 25):  # RefSeq indices: inside codons, and one outside the exon
+            b = SEQ[ridx]
+            for alt in "ACGT":
+                if alt == b:
+                    continue
+                g = me.ref_to_chr[ridx]
+                gop = f"{b}>{alt}" if s_ > 0 else f"{COMP[b]}>{COMP[alt]}"
+                try:
+                    k, v = Evaluator({"self": me, "mut": (g, gop), "infer": True}, funcs={"seq_to_amino": amino, "log.warn": lambda *a: None},
+                                     consts=consts).run(fn_body(gf))
+                except (Unfoldable,) as e:
+                    res.err("C08.R6", f"get_functional outside folding language: {e}")
+                    return
+                except Raised as e:
+                    k, v = "raise", e.kind
+                if exon[0] <= ridx < exon[1]:
+                    new = SEQ[:ridx] + alt + SEQ[ridx + 1:]
+                    aa = "".join(prot[new[i:i + 3]] for i in range(exon[0], exon[1], 3))
+                    diff = [i for i in range(len(aa)) if aa[i] != ref_aa[i]]
+                    want = f"{ref_aa[diff[0]]}{diff[0] + 1}{aa[diff[0]]}" if diff else None
+                else:
+                    want = None
+                n += 1
+                if k != "return" or v != want:
+                    bad = bad or f"strand {strand}, RefSeq index {ridx} {b}>{alt} (genome {g}:{gop}): {k} {v!r}, expected {want!r}"
+        res.ob("C08.R6", gf, gf, bad is None,
+               expected=f"strand {strand}: inferred effect of a genome-side substitution = amino-acid change of the RefSeq-side substitution it denotes",
+               found="agrees" if bad is None else bad, clause="amino-acid effect inference uses the same maps", key=f"inferred-effect:{strand}")
+    res.count("C08.R6:substitutions folded", n)
+
+
 class SeqGene:
     _fold_ok = True
 
@@ -479,6 +546,7 @@ def run(repo, res):
     r1_symbolic(repo, res)
     r4(repo, res, stored)
     r5(repo, res)
+    r6(repo, res)
 
 
 MUTANTS = [
@@ -515,6 +583,10 @@ MUTANTS = [
          old="                        np += len(ev.ref)\n                        no = \"ins\" + ev.alt[len(ev.ref) :]", new="                        no = \"ins\" + ev.alt[len(ev.ref) :]"),
     dict(name="R5 variant position zero-based", module="sam", expect="C08.R5",
          old="            v = Variant(rname, p + 1, o1, o2, ref)  # type: ignore", new="            v = Variant(rname, p, o1, o2, ref)  # type: ignore"),
+    dict(name="R6 inferred effect not re-oriented on the reverse strand", module="gene", expect="C08.R6",
+         old="            if self.strand < 0:\n                op = self._reverse_op(op)\n", new=""),
+    dict(name="R6 inferred effect uses the genome position as RefSeq index", module="gene", expect="C08.R6",
+         old="        pos = self.chr_to_ref[pos]\n        if infer and any(s <= pos < e for s, e in self.exons):", new="        pos = pos - min(self.chr_to_ref)\n        if infer and any(s <= pos < e for s, e in self.exons):"),
     # benign
     dict(name="benign: deletion offset rewritten", module="gene", kind="benign",
          old="                            pos = pos + len(op) - 4", new="                            pos = pos + len(op[3:]) - 1"),
